@@ -80,7 +80,7 @@ def gen_net(rng, idx, profile):
         "cascade": ["conv", "conv", "dwconv", "maxpool", "avgpool_valid", "conv1x1", "add_skip", "relu"],
         "weights": ["conv", "conv1x1", "conv1x1", "fc_end", "dwconv"],
         "cpu": ["conv_cpu", "conv", "add_self", "relu", "maxpool", "conv1x1", "conv_cpu", "concat"],
-        "approx": ["conv", "conv1x1", "relu"],
+        "approx": ["conv", "conv1x1", "relu", "add_self", "maxpool"],
     }
     allk = sorted({k for v in menu.values() for k in v})
     live = [x]
@@ -184,9 +184,13 @@ def gen_net(rng, idx, profile):
             avoid |= {"fc_end", "reshape_back"}
     if profile == "approx" and len(b.t(cur).shape) == 4:
         # the approximated operator comes last so that its error is not amplified
-        k = rng.choice([(2, 2), (3, 3), (3, 3), (5, 5)])
-        new = b.pool(cur, "AVERAGE_POOL_2D", k, rng.choice([(1, 1), (2, 2)]), "SAME")
-        b.net.desc.append("avgpool_same")
+        which = rng.choice(["avgpool_same", "avgpool_same", "logistic", "tanh"])
+        b.net.desc.append(which)
+        if which == "avgpool_same":
+            k = rng.choice([(2, 2), (3, 3), (3, 3), (5, 5)])
+            new = b.pool(cur, "AVERAGE_POOL_2D", k, rng.choice([(1, 1), (2, 2)]), "SAME")
+        else:
+            new = b.unary("LOGISTIC" if which == "logistic" else "TANH", cur)
         if new is not None:
             cur = new
     outs = [cur]
